@@ -366,13 +366,16 @@ def converted_call(f, args, kwargs, caller_fn_scope=None, options=None):
   try:
     program_ctx = converter.ProgramContext(options=options)
     converted_f = _convert_actual(target_entity, program_ctx)
-    if logging.has_verbosity(2):
-      _log_callargs(converted_f, effective_args, kwargs)
   except Exception as e:  # pylint:disable=broad-except
     logging.log(1, 'Error transforming entity %s', target_entity, exc_info=True)
     if is_autograph_strict_conversion_mode():
       raise
     return _fall_back_unconverted(f, args, kwargs, options, e)
+
+  # Binding the arguments can fail like the call itself would; that is not a
+  # conversion error.
+  if logging.has_verbosity(2):
+    _log_callargs(converted_f, effective_args, kwargs)
 
   # (dime10) strip stack trace mapper & filter which rely on compiled TF cpp code
   try:
